@@ -32,8 +32,10 @@ def _chunk(cases):
             dt_dec = Decimal(r['m']) * (Decimal(10) ** -r['e'])
             dt_f = float(dt_dec)
             T_f = dt_f * r['n'] if r['T_as'] == 'product' else float(dt_dec * r['n'])
-            dt = TimeInterval(dt_f, r['unit'])
-            T = TimeInterval(T_f, r['unit'])
+            # whole-number steps / durations are given as Python ints in every other case (ints are legal values)
+            as_int = r.get('ints') and dt_f == int(dt_f) and T_f == int(T_f)
+            dt = TimeInterval(int(dt_f) if as_int else dt_f, r['unit'])
+            T = TimeInterval(int(T_f) if as_int else T_f, r['unit'])
             before = [rstr(spectab.to_si(Fraction(t.value), 'Time', t.unit)) for t in pt.time]
             _, err = outcome(lambda: solver.run(dt, T))
             after = [rstr(spectab.to_si(Fraction(t.value), 'Time', t.unit)) for t in pt.time]
@@ -52,7 +54,8 @@ def gen_cases(tier, seed):
     n_cases = 360 if tier == 'quick' else 12000
 
     def run():
-        return {'m': rnd.choice(ms), 'e': rnd.choice([0, 1, 2, 3]), 'n': rnd.randint(2, 60), 'unit': rnd.choice(UNITS), 'T_as': rnd.choice(['product', 'literal'])}
+        return {'m': rnd.choice(ms), 'e': rnd.choice([0, 1, 2, 3]), 'n': rnd.randint(2, 60), 'unit': rnd.choice(UNITS), 'T_as': rnd.choice(['product', 'literal']),
+                'ints': rnd.random() < 0.5}
     # stratified: every m once at least (quick: with a random e), plus the historically failing one
     fixed = [{'m': 35, 'e': 2, 'n': 30, 'unit': 'sec', 'T_as': 'literal'}, {'m': 1, 'e': 1, 'n': 3, 'unit': 'sec', 'T_as': 'product'}]
     for i in range(n_cases):
@@ -65,6 +68,10 @@ def gen_cases(tier, seed):
             if i % 4 == 1:
                 runs[1]['m'], runs[1]['e'] = r1['m'], r1['e']      # same step as the first run
         cases.append({'id': f'g{i}', 'runs': runs})
+    # decimal step, then a whole-number step given as an int (the restart instant is not a whole number of new steps), in the same and in another unit
+    cases.append({'id': 'gI1', 'runs': [{'m': 5, 'e': 1, 'n': 3, 'unit': 'sec', 'T_as': 'product'}, {'m': 1, 'e': 0, 'n': 4, 'unit': 'sec', 'T_as': 'product', 'ints': True}]})
+    cases.append({'id': 'gI2', 'runs': [{'m': 30, 'e': 0, 'n': 3, 'unit': 'sec', 'T_as': 'product', 'ints': True}, {'m': 1, 'e': 0, 'n': 3, 'unit': 'min', 'T_as': 'product', 'ints': True}]})
+    cases.append({'id': 'gI3', 'runs': [{'m': 25, 'e': 1, 'n': 3, 'unit': 'ms', 'T_as': 'product'}, {'m': 2, 'e': 0, 'n': 5, 'unit': 'ms', 'T_as': 'literal', 'ints': True}]})
     cases.append({'id': 'gF1', 'runs': [fixed[0]]})
     cases.append({'id': 'gC', 'runs': [fixed[1], dict(fixed[1])]})
     return cases
